@@ -598,9 +598,13 @@ func rbody(kind string, callers [][]int, sinkHas, faults int, cancelOne bool, si
 
 // ---- existence cache ----------------------------------------------------------------------------------
 
-func ebody(size int, set string, depth int, ndig int) func() {
+func ebody(size int, set string, depth int, ndig int, instanced bool) func() {
 	return func() {
-		backend := sim.NewModel("backend", digest.KeyWithoutInstance)
+		kf := digest.KeyWithoutInstance
+		if instanced {
+			kf = digest.KeyWithInstance // an instance-aware backend: the same hash under two instance names are two objects
+		}
+		backend := sim.NewModel("backend", kf)
 		var es eviction.Set[string]
 		switch set {
 		case "lru":
@@ -610,8 +614,11 @@ func ebody(size int, set string, depth int, ndig int) func() {
 		default:
 			es = eviction.NewRRSet[string]()
 		}
-		ec := digest.NewExistenceCache(lstore.VClock{}, digest.KeyWithoutInstance, size, cacheDuration, es)
+		ec := digest.NewExistenceCache(lstore.VClock{}, kf, size, cacheDuration, es)
 		objs := []lstore.Obj{lstore.CASObj("P", "", []byte("p")), lstore.CASObj("Q", "", []byte("qq")), lstore.CASObj("R", "", []byte("rrr"))}[:ndig]
+		if instanced {
+			objs = []lstore.Obj{lstore.CASObj("P@a", "a", []byte("p")), lstore.CASObj("P@b", "b", []byte("p")), lstore.CASObj("Q@a", "a", []byte("qq"))}[:ndig]
+		}
 		nsub := 1<<ndig - 1
 		lastPresent := map[string]time.Time{} // last virtual time the BACKEND itself reported the object present
 		fb := &faulty{BlobAccess: backend, name: "backend"}
@@ -726,11 +733,12 @@ func main() {
 		}
 	}
 	ed2, ed3 := ev.Pick(r, 7, 8), ev.Pick(r, 5, 6)
-	mc.GroupSpace["existence"] = fmt.Sprintf("cache sizes {1,2} x eviction sets {lru,fifo}: all sequences of %d operations over {FindMissing of each non-empty subset of 2 digests, toggle each digest in the backend, advance the clock by 1 s, by 9 s} and all sequences of %d operations with 3 digests; duration 10 s", ed2, ed3)
+	mc.GroupSpace["existence"] = fmt.Sprintf("cache sizes {1,2} x eviction sets {lru,fifo}: all sequences of %d operations over {FindMissing of each non-empty subset of 2 digests, toggle each digest in the backend, advance the clock by 1 s, by 9 s} (plain, and instance-aware: the same hash under two instance names with a cache keyed by instance name) and all sequences of %d operations with 3 digests; duration 10 s", ed2, ed3)
 	for _, size := range []int{1, 2} {
 		for _, set := range []string{"lru", "fifo"} {
-			scs = append(scs, mc.Scenario{Name: fmt.Sprintf("existence/size%d-%s-2digests", size, set), Group: "existence", Bound: 0, Body: ebody(size, set, ed2, 2)})
-			scs = append(scs, mc.Scenario{Name: fmt.Sprintf("existence/size%d-%s-3digests", size, set), Group: "existence", Bound: 0, Body: ebody(size, set, ed3, 3)})
+			scs = append(scs, mc.Scenario{Name: fmt.Sprintf("existence/size%d-%s-2digests", size, set), Group: "existence", Bound: 0, Body: ebody(size, set, ed2, 2, false)})
+			scs = append(scs, mc.Scenario{Name: fmt.Sprintf("existence/size%d-%s-2digests-instance-aware", size, set), Group: "existence", Bound: 0, Body: ebody(size, set, ed2, 2, true)})
+			scs = append(scs, mc.Scenario{Name: fmt.Sprintf("existence/size%d-%s-3digests", size, set), Group: "existence", Bound: 0, Body: ebody(size, set, ed3, 3, false)})
 		}
 	}
 	mc.Run(r, scs)
